@@ -6,7 +6,7 @@ from typing import Dict, List, Optional, Set, Tuple
 
 from ..program import (AnalysisError, Class, Func, call_name, const_str,
                        dotted, kwarg, norm_key, unparse, walk_no_nested)
-from ..util import is_self_attr, subscript_const
+from ..util import expand_expr, is_self_attr, subscript_const
 
 EXPLANATION = (
     'Decided clauses: R-C05.1 every key that a *Signature.diff() can emit is '
@@ -572,7 +572,7 @@ def r4_clone(ctx):
                 a in ('attrs', 'field_attrs', 'expressions', 'fields',
                       'applied_migrations', 'index_together',
                       'unique_together')
-            txt = unparse(carrier)
+            txt = unparse(expand_expr(clone, carrier))
             unshared = ('deepcopy(' in txt or '.clone()' in txt or
                         not mutable)
             if not unshared and a in ('index_together', 'unique_together'):
